@@ -119,6 +119,13 @@ fn well_formed(apts: &[Apt]) -> Vec<WellFormed> {
         ("@-34,18.6".to_string(), Some((-34.0, 18.6))),
         ("@0,0".to_string(), Some((0.0, 0.0))),
         ("@-89.5,-179.25".to_string(), Some((-89.5, -179.25))),
+        // other spellings of the same numbers and of the same airport (all accepted on the pinned tree)
+        ("@43.30,1.350".to_string(), Some((43.3, 1.35))),
+        ("@4.33e1,1.35".to_string(), Some((43.3, 1.35))),
+        ("@+43.3,+1.35".to_string(), Some((43.3, 1.35))),
+        ("@-0.0,0.0".to_string(), Some((0.0, 0.0))),
+        ("@TLS".to_string(), lfbo),
+        ("?AMS".to_string(), eham),
     ];
     // (upper-case letters only with tcp/udp: a ws:// URL is lower-cased by the URL parser, see the observations)
     let hosts = ["localhost", "1.2.3.4", "example.org", "[::1]", "0.0.0.0", "a-b.c", "Radarcape.local", "EXAMPLE.ORG"];
